@@ -245,7 +245,10 @@ int FSearch(
     while (True) {
         pPos = strchr(pStart, DIRSEP);
 
-        if (!AssembleAndCheck(
+        /* an empty component (in particular an empty search path) names no directory */
+
+        if ((pPos ? (pPos != pStart) : (*pStart != '\0'))
+            && !AssembleAndCheck(
                     pDest, DestSize, pStart, pPos ? pPos - pStart : (int)strlen(pStart),
                     pFileToSearch)) {
             return 0;
